@@ -23,9 +23,18 @@ def gen_cases(ck):
                 n = rng.randrange(1, 7)
                 return [rng.choice([1, 2, 17, 255, 256, 257, 4000, rng.randrange(1, 70000)] + big[: 2 if i % 2 else len(big)])
                         if rng.random() < 0.8 else rng.choice(big) for _ in range(n)]
+            c2s, s2c = sizes(), sizes()
+            conns = rng.choice([1, 1, 2, 3, 8 if not quick else 4])
+            # sending one huge message is quadratic in zlink (grow by 256 B, re-serialise): keep the
+            # total work of a scenario bounded so that the harness' time-outs mean "stuck", not "slow"
+            heavy = sum(1 for x in c2s + s2c if x >= 262144)
+            if heavy * conns > 4:
+                conns = 1
+                c2s = [x for x in c2s if x < 262144][:4] + [x for x in c2s if x >= 262144][:2]
+                s2c = [x for x in s2c if x < 262144][:4] + [x for x in s2c if x >= 262144][:2]
             intact.append({"id": len(intact), "runtime": rt, "kind": "intact",
-                           "conns": rng.choice([1, 1, 2, 3, 8 if not quick else 4]),
-                           "c2s": sizes(), "s2c": sizes(),
+                           "conns": conns, "timeout_s": 60 if quick else 240,
+                           "c2s": c2s or [1], "s2c": s2c or [1],
                            "server_delay_ms": rng.choice([0, 0, 2, 10]), "client_delay_ms": rng.choice([0, 0, 2, 10]),
                            "from_fd": rng.random() < 0.5, "pipeline": rng.random() < 0.4})
     # pipelined small messages of every size 1..N: the end of the queued data passes through every
